@@ -72,11 +72,13 @@ def check(run):
     codec = vlib.harness_build("harness", ["codec"])["codec"]
     cmds = [s for s in L["structs"] if s["control"]]
     cases, meta = [], []     # meta: (base index or None, suffix hex)
+    canonical_bases = set()
     for s in cmds:
         for _ in range(30 if th else 8):
             v, b = layouts.gen_struct_value(rng, s, big=rng.random() < 0.15)
             base = len(cases)
             cases.append("dec\t%s\t%s" % (s["name"], b.hex())); meta.append((None, "", s["name"]))
+            canonical_bases.add(cases[-1])
             sufs = ["%02x" % x for x in range(256)]
             other_v, other_b = layouts.gen_struct_value(rng, rng.choice(cmds))
             sufs.append(other_b.hex())
@@ -148,6 +150,10 @@ def check(run):
         if m.split(" re=")[0] != i.split(" re=")[0]:
             diffs.append((c, m, i))
         if base is None:
+            # a canonical packet on its own: nothing of it may be handed back as "remainder" (what would then sit in front of any suffix)
+            if i.startswith("Ok ") and " rem=- " not in i + " " and c in canonical_bases:
+                run.violation(kind="input", case=c, expected="Ok <value> rem=-", observed=i[:300], how_found="oracle",
+                              detail="bytes of the packet itself were handed back as if they followed it")
             continue
         ref = io[base]
         # oracle: same value (or the same error) as without the suffix; remainder = old remainder ++ suffix
